@@ -108,6 +108,13 @@ CHECKS = {
             "VMs and on a model (one globals map per VM, invocations by the reference interpreter); every global of every VM and "
             "every returned value is compared after every step; failing histories shrink as one value.",
             "Trusted: vf/interp.py; invocations leaving the numeric domain are skipped and counted.", "4/C15"),
+    "C05": ("exploration",
+            "Hypothesis loosely typed whole-language program generation (plus the well-typed generators) with a validity predicate on "
+            "the outcome; exception bucketing by (stage, type, innermost function, opcode); search continues past listed known findings",
+            "Programs over the whole spellable language are compiled at both optimisation settings; once the front end accepts, "
+            "lowering, IR passes, linking and VM execution on type-correct inputs may only succeed or fail with the two defined "
+            "run-time errors; everything else is a violation bucketed by signature.",
+            "Trusted: stage attribution from tracebacks (vf/adapter.py); allowances derived from the program text (vf/checks/c05.analyse).", "4/C05"),
 }
 
 PENDING = {}
